@@ -1159,8 +1159,8 @@ func main() {
 		os.Exit(2)
 	}
 	// gomacro (the watchdog starts only now: the oracle build time depends on the machine load)
-	rn.wd = vh.NewWatchdog(rep, 120*time.Second)
-	cw := vh.NewCases(a, "From Coq Require Import List NArith ZArith Bool.\nFrom Verif Require Import C09.Model.\nImport ListNotations.\nOpen Scope Z_scope.", "case", "mismatches", 6)
+	rn.wd = vh.NewWatchdog(rep, 10*time.Minute) // generous: a fast.New() + compile under heavy machine load can take minutes
+	cw := vh.NewCases(a, "From Coq Require Import List NArith ZArith Bool.\nFrom Verif Require Import C09.Model.\nImport ListNotations.\nOpen Scope Z_scope.", "case", "mismatches", 9)
 	idx := 0
 	for i, p := range progs {
 		ck := checks[i]
@@ -1170,8 +1170,12 @@ func main() {
 			continue
 		}
 		if cc != "" {
-			cw.Add(fmt.Sprintf("mkCase %d %s", idx, cc))
-			rep.CaseInput(idx, p.Hier)
+			// correspondence volume: every program in the quick tier, 1 in 3 in the thorough tier (a case costs 2-7 s of coqc:
+			// about 290 cases = 32 shards instead of 144; the direct oracles judge every site of every program in both tiers)
+			if !a.Thorough() || idx%3 == 0 {
+				cw.Add(fmt.Sprintf("mkCase %d %s", idx, cc))
+				rep.CaseInput(idx, p.Hier)
+			}
 			idx++
 		}
 		hb, _ := json.Marshal(p.Hier)
